@@ -182,8 +182,81 @@ def search_witness(d, k, inst, impl, model):
     return None
 
 
+def ref_variants(rng, inst):
+    """the instance at the level of its references (RawLoad.resolve): unusual but defined listings, and listings whose
+    references do not resolve (the loader must panic, the model too; an UNUSED route may dangle unnoticed)"""
+    out = []
+    j = lambda: json.loads(json.dumps(inst))
+    kind = rng.choice(["dup_allowed", "unused_route_dangling", "dangling_route_type", "dangling_seg_loc", "dangling_dep_route",
+                       "dangling_dseg_rseg", "dangling_slot_loc", "dangling_depot_loc", "dangling_allowed_type",
+                       "dangling_dh_index", "short_matrix", "short_row", "dup_location_entry_in_indices"])
+    i2 = j()
+    used_routes = {d["route"] for d in i2["departures"] if True}
+    if kind == "dup_allowed":
+        deps = [d for d in i2.get("depots") or [] if d["allowedTypes"]]
+        if not deps:
+            return []
+        d = rng.choice(deps)
+        a = dict(rng.choice(d["allowedTypes"]))
+        a["capacity"] = rng.choice([0, 1, 3])
+        d["allowedTypes"].append(a)        # the later entry wins
+    elif kind == "unused_route_dangling":
+        i2["routes"].append({"id": "r_unused", "vehicleType": "T_none", "segments": [
+            {"id": "x", "order": 0, "origin": "L_none", "destination": "L0", "distance": 5, "duration": 60}]})
+    elif kind == "dangling_route_type":
+        r = next(r for r in i2["routes"] if r["id"] in used_routes)
+        r["vehicleType"] = "T_none"
+    elif kind == "dangling_seg_loc":
+        dep = rng.choice(i2["departures"])
+        r = next(r for r in i2["routes"] if r["id"] == dep["route"])
+        sid = rng.choice(dep["segments"])["routeSegment"]
+        g = next(g for g in r["segments"] if g["id"] == sid)
+        g[rng.choice(["origin", "destination"])] = "L_none"
+    elif kind == "dangling_dep_route":
+        rng.choice(i2["departures"])["route"] = "r_none"
+    elif kind == "dangling_dseg_rseg":
+        rng.choice(rng.choice(i2["departures"])["segments"])["routeSegment"] = "s_none"
+    elif kind == "dangling_slot_loc":
+        if not i2.get("maintenanceSlots"):
+            return []
+        rng.choice(i2["maintenanceSlots"])["location"] = "L_none"
+    elif kind == "dangling_depot_loc":
+        if not i2.get("depots"):
+            return []
+        rng.choice(i2["depots"])["location"] = "L_none"
+    elif kind == "dangling_allowed_type":
+        deps = [d for d in i2.get("depots") or [] if d["allowedTypes"]]
+        if not deps:
+            return []
+        rng.choice(rng.choice(deps)["allowedTypes"])["vehicleType"] = "T_none"
+    elif kind == "dangling_dh_index":
+        ix = i2["deadHeadTrips"]["indices"]
+        ix[rng.randrange(len(ix))] = "L_none"
+    elif kind == "short_matrix":
+        m = i2["deadHeadTrips"][rng.choice(["durations", "distances"])]
+        m.pop()
+    elif kind == "short_row":
+        m = i2["deadHeadTrips"][rng.choice(["durations", "distances"])]
+        rng.choice(m).pop()
+    else:
+        # `indices` lists one location twice (and is one longer): the later row / column wins
+        dh = i2["deadHeadTrips"]
+        k = rng.randrange(len(dh["indices"]))
+        dh["indices"].append(dh["indices"][k])
+        for key in ("durations", "distances"):
+            for row in dh[key]:
+                row.append(rng.choice([0, 300, 700]))
+            dh[key].append([rng.choice([0, 300, 700]) for _ in range(len(dh["indices"]))])
+    i2["_refkind"] = kind
+    return [i2]
+
+
 def features(inst, impl):
     f = set()
+    if inst.get("_refkind"):
+        f.add("ref_" + inst["_refkind"])
+        if "load PANIC" in impl[:1]:
+            f.add("load_refused")
     if inst.get("depots") is None:
         f.add("default_depots")
     if inst.get("maintenanceSlots"):
@@ -220,6 +293,10 @@ def main(tier, seed):
     rng = random.Random(seed)
     d = lib.casedir(PID)
     insts = lib.load_corpus(PID) + [instgen.gen_instance(rng) for _ in range(n)]
+    # reference level: a fifth as many listings with unusual or unresolvable references
+    rrng = random.Random(seed * 31 + 17)
+    for base in list(insts[-max(1, n // 5):]):
+        insts += ref_variants(rrng, base)
     results = lib.pmap(run_case, [(d, k, inst) for k, inst in enumerate(insts)])
     # correspondence differs somewhere but no observation of the property differs: search for a failing input
     extra = []
